@@ -84,10 +84,11 @@ def DumpErr.render : DumpErr → String
 def LoadErr.render : LoadErr → String
   | .eof => "EOFError"
   | .dataFormat => "DataFormatError"
+  | .memory => "MemoryError"
 
 def parseCfg (s : String) : Option Cfg :=
   match s.toList with
-  | [a, b, c] => some ⟨a == '1', b == '1', c == '1'⟩
+  | [a, b, c] => some ⟨a == '1', b == '1', c == '1', some 4096⟩
   | _ => none
 
 /-- serializer commands of the driver -/
